@@ -273,13 +273,22 @@ def main():
             changed.append("Footprint.lean")
     except Exception as e:  # noqa
         problems.append("footprint: %r" % (e,))
+    fd = None
+    try:
+        import translate_factory
+        fd = translate_factory.extract(REPO)
+        if write_if_changed(os.path.join(GEN, "FactoryData.lean"), translate_factory.render(fd, lean_list, lean_bytes)):
+            changed.append("FactoryData.lean")
+    except Exception as e:  # noqa
+        problems.append("factory data: %r" % (e,))
+        write_if_changed(os.path.join(GEN, "FactoryData.lean"), translate_factory.render({"match_ext": {}, "arg_ext": {}}, lean_list, lean_bytes))
     try:
         import translate_ms
         changed += translate_ms.emit(GEN, write_if_changed, problems)
     except ImportError:
         pass
     gj = {"table": table, "unreachable": unreachable, "lexrules": rules, "problems": problems,
-          "footprint": fp, "table_wire": [enc_def(d) for d in table], "digests": source_digests(), "changed": changed}
+          "footprint": fp, "factory": fd, "table_wire": [enc_def(d) for d in table], "digests": source_digests(), "changed": changed}
     with open(os.path.join(VERIF, ".cache", "generated.json"), "w") as f:
         json.dump(gj, f, indent=1)
     print(json.dumps({"changed": changed, "problems": problems, "commands": len(table), "unreachable": unreachable}))
